@@ -192,16 +192,24 @@ def main():
                 bad += n == 0
         print(f'{len(sel)} mutants, {bad} with missing pattern')
         return 1 if bad else 0
-    with ThreadPoolExecutor(jobs) as ex:
-        res = list(ex.map(run_one, sel))
+    import threading
+
     path = '/verif/sensitivity.json'
-    old = json.load(open(path)) if os.path.exists(path) else {'mutants': []}
-    keep = [r for r in old['mutants'] if (r['prop'], r['name']) not in {(x['prop'], x['name']) for x in res}]
-    allr = sorted(keep + res, key=lambda r: (r['prop'], r['name']))
-    json.dump({'comment': 'written by tools/mutants.py (quick tier, VERIF_SEED default); not read by any check', 'mutants': allr}, open(path, 'w'), indent=1)
-    for r in res:
-        flag = '' if (r['outcome'] == 'DETECTED') == (r.get('expect', 'detect') == 'detect') else '   <-- UNEXPECTED'
-        print(f"{r['prop']} {r['name']}: {r['outcome']} {r.get('first_tags', [''])[:1]}{flag}")
+    lock = threading.Lock()
+
+    def one(m):
+        res = run_one(m)
+        with lock:
+            old = json.load(open(path)) if os.path.exists(path) else {'mutants': []}
+            keep = [x for x in old['mutants'] if (x['prop'], x['name']) != (res['prop'], res['name'])]
+            allr = sorted(keep + [res], key=lambda x: (x['prop'], x['name']))
+            json.dump({'comment': 'written by tools/mutants.py (quick tier, VERIF_SEED default); not read by any check', 'mutants': allr}, open(path, 'w'), indent=1)
+            flag = '' if (res['outcome'] == 'DETECTED') == (res.get('expect', 'detect') == 'detect') else '   <-- UNEXPECTED'
+            print(f"{res['prop']} {res['name']}: {res['outcome']} {res.get('first_tags', [''])[:1]}{flag}", flush=True)
+        return res
+
+    with ThreadPoolExecutor(jobs) as ex:
+        list(ex.map(one, sel))
     return 0
 
 
